@@ -335,9 +335,13 @@ func runHistory(p *SPlan, noUp bool, o *sim.Outcome, sigParts *[]string) []obsLi
 		case "sign":
 			var sig *ssh.Signature
 			pub := c.pub(st.Role)
+			var arg ssh.PublicKey = pub
+			if st.Arg == "agentkey" {
+				arg = &agent.Key{Format: pub.Type(), Blob: pub.Marshal()}
+			}
 			res = s.call(func() error {
 				var e error
-				sig, e = s.shim.SignWithFlags(pub, data, agent.SignatureFlags(st.Flags))
+				sig, e = s.shim.SignWithFlags(arg, data, agent.SignatureFlags(st.Flags))
 				return e
 			})
 			id := c.ident(st.Role, 0, now)
@@ -351,17 +355,41 @@ func runHistory(p *SPlan, noUp bool, o *sim.Outcome, sigParts *[]string) []obsLi
 			}
 			_ = signKeyRole
 		case "add":
-			res = s.call(func() error { return s.shim.Add(c.added(st.Role, uint32(st.N))) })
+			ak := c.added(st.Role, uint32(st.N))
+			ak.ConfirmBeforeUse = st.Flags == 1
+			res = s.call(func() error { return s.shim.Add(ak) })
 			want = m.Add(c.ident(st.Role, uint32(st.N), now), now)
+			if res.err == nil && res.panicked == nil && !res.faulted && want == shimmodel.OK {
+				// adding has the same effect as on the underlying agent: comment and constraints arrive unchanged
+				for _, id := range s.ref.Snapshot() {
+					if bytes.Equal(id.Blob, c.pub(st.Role).Marshal()) {
+						if id.LifetimeSecs != uint32(st.N) || id.Confirm != ak.ConfirmBeforeUse || id.Comment != ak.Comment {
+							o.Fail("C10.effect", "add_constraints_altered", i, "%s: the underlying agent received lifetime=%d confirm=%v comment=%q, the caller gave lifetime=%d confirm=%v comment=%q", tag, id.LifetimeSecs, id.Confirm, id.Comment, st.N, ak.ConfirmBeforeUse, ak.Comment)
+						} else {
+							o.Probe("add_constraints_pass_through")
+						}
+					}
+				}
+			}
 		case "addhard":
 			res = s.call(func() error { return s.shim.AddHardCert(c.pub(st.Role), st.Arg) })
 			want = m.AddHard(c.ident(st.Role, 0, now), now)
 		case "remove":
-			res = s.call(func() error { return s.shim.Remove(c.pub(st.Role)) })
+			var rarg ssh.PublicKey = c.pub(st.Role)
+			if st.Arg == "agentkey" {
+				rarg = &agent.Key{Format: rarg.Type(), Blob: rarg.Marshal()}
+			}
+			res = s.call(func() error { return s.shim.Remove(rarg) })
 			want = m.Remove(st.Role, now)
 		case "removeall":
 			res = s.call(func() error { return s.shim.RemoveAll() })
 			want = m.RemoveAll()
+		case "close":
+			res = s.call(func() error { return s.shim.Close() })
+			want = shimmodel.OK
+			if m.Locked {
+				want = shimmodel.Err
+			}
 		case "lock":
 			res = s.call(func() error { return s.shim.Lock([]byte(st.Arg)) })
 			want = m.Lock(st.Arg)
@@ -411,6 +439,14 @@ func runHistory(p *SPlan, noUp bool, o *sim.Outcome, sigParts *[]string) []obsLi
 		if res.panicked != nil {
 			site := panicSite(res.stack)
 			o.Fail("C10.no_crash", site, i, "%s: the shim panicked (%v) [faults fired so far: %v]", tag, res.panicked, s.firedLog)
+			return lists
+		}
+		if st.Op == "close" && !wasLocked && !res.faulted && !s.closed {
+			// closing an unlocked shim ends the history: the connection to the underlying agent is gone
+			if res.err != nil {
+				o.Fail("C10.effect", "close_refused", i, "%s: closing an unlocked shim failed: %v", tag, res.err)
+			}
+			o.Probe("closed_unlocked")
 			return lists
 		}
 		if res.faulted || s.closed {
